@@ -299,7 +299,12 @@ def accessor_agreement(ct, rep, rule="accessor-agreement"):
 
 def count_definition(ct, rep, rule="count-definition"):
     f = ct.prog.need_method(ct.tdf, "__len__")
+    from ..facts import return_leaves as _rl
     rets = [s for s in walk_no_nested(f.node) if isinstance(s, ast.Return)]
+    _leaves = _rl(f.node)
+    if len(_leaves) == 1 and _leaves[0][1] is not None and rets:
+        # locals substituted
+        rets = [ast.copy_location(ast.Return(value=_leaves[0][1]), rets[-1])]
     okk = False
     if len(rets) == 1:
         v = rets[0].value
@@ -316,6 +321,25 @@ def count_definition(ct, rep, rule="count-definition"):
             var = norm(gens[0].generators[0].target)
             if isinstance(c, ast.Compare) and len(c.ops) == 1 and isinstance(c.ops[0], ast.NotEq) and {norm(c.left), norm(c.comparators[0])} == {f"{var}.type", "BlockType.unusedSlot"}:
                 okk = True
+    if not okk and len(rets) == 1 and isinstance(rets[0].value, ast.BinOp) and isinstance(rets[0].value.op, ast.Sub):
+        # len(entries) - (number of entries whose type IS unusedSlot)
+        l, r = rets[0].value.left, rets[0].value.right
+        def unused_count(e):
+            if isinstance(e, ast.Call) and norm(e.func) == "sum" and e.args and isinstance(e.args[0], (ast.GeneratorExp, ast.ListComp)) and len(e.args[0].generators) == 1:
+                g = e.args[0].generators[0]
+                v_ = norm(g.target)
+                c_ = g.ifs[0] if len(g.ifs) == 1 and norm(e.args[0].elt) == "1" else (e.args[0].elt if not g.ifs else None)
+                return ct.is_entries(g.iter) and isinstance(c_, ast.Compare) and len(c_.ops) == 1 and isinstance(c_.ops[0], ast.Eq) \
+                    and {norm(c_.left), norm(c_.comparators[0])} == {f"{v_}.type", "BlockType.unusedSlot"}
+            if isinstance(e, ast.Call) and isinstance(e.func, ast.Attribute) and e.func.attr == "count" and len(e.args) == 1 and norm(e.args[0]) == "BlockType.unusedSlot" \
+                    and isinstance(e.func.value, (ast.ListComp,)) and len(e.func.value.generators) == 1 and not e.func.value.generators[0].ifs:
+                g = e.func.value.generators[0]
+                return ct.is_entries(g.iter) and norm(e.func.value.elt) == f"{norm(g.target)}.type"
+            return False
+        def all_entries(e):
+            return ct.is_entries(e) or (isinstance(e, (ast.ListComp, ast.GeneratorExp)) and len(e.generators) == 1 and not e.generators[0].ifs and ct.is_entries(e.generators[0].iter))
+        if isinstance(l, ast.Call) and norm(l.func) == "len" and l.args and all_entries(l.args[0]) and unused_count(r):
+            okk = True
     if okk:
         rep.ok(rule, "Tdf.__len__ counts the entries whose type is not unusedSlot", nontrivial=True)
     else:
